@@ -13,9 +13,12 @@ set_option linter.unusedSimpArgs false
 set_option linter.unusedVariables false
 
 theorem l3_full_ge : L3Full .ge := by l3_full
-theorem l3_pre_ge : L3Pre .ge := by l3_pre
+theorem l3_pre_lt_ge : L3PreO .ge .lt := by l3_pre
+theorem l3_pre_eq_ge : L3PreO .ge .eq := by l3_pre
+theorem l3_pre_gt_ge : L3PreO .ge .gt := by l3_pre
 theorem l3_part_ge : L3Part .ge := by l3_part
 
-theorem l3_npm_ge : L3Npm .ge := l3_assemble _ l3_full_ge l3_pre_ge l3_part_ge
+theorem l3_npm_ge : L3Npm .ge :=
+  l3_assemble _ l3_full_ge (l3_pre_assemble _ l3_pre_lt_ge l3_pre_eq_ge l3_pre_gt_ge) l3_part_ge
 
 end DepsDev.Proofs.C03
